@@ -162,6 +162,11 @@ func genExtension(g *prng.R, idx int) extSpec {
 	for i := 0; i < nT; i++ {
 		es.Types = append(es.Types, fmt.Sprintf("Vx%c%dThing", letters[(idx+i)%len(letters)], i))
 	}
+	{
+		// names are arbitrary: among them words that mean something to the
+		// go tool when a file name ends in them (_test.go, _GOOS.go, _GOARCH.go)
+		es.Types[0] = []string{"Test", "Windows", "Js", "Linux", "Arm64", "Wasm"}[idx%6]
+	}
 	ref := func(name string) map[string]interface{} {
 		for _, t := range es.Types {
 			if t == name {
@@ -318,6 +323,9 @@ func genExtension(g *prng.R, idx int) extSpec {
 	}
 	for i := 0; i < nP; i++ {
 		name := fmt.Sprintf("vx%c%dProp", strings.ToLower(letters)[(idx+i)%len(letters)], i)
+		if i == 0 {
+			name = []string{"ios", "test", "amd64", "android", "plan9", "s390x"}[idx%6]
+		}
 		es.Props = append(es.Props, name)
 		typ := []interface{}{"rdf:Property"}
 		if g.Bool() {
